@@ -19,12 +19,13 @@ CONSTANTS Names,        \* group names
 VARIABLES grp, n, per, ndiv, sym, pc, ord, kl0, kl1
 vars == <<grp, n, per, ndiv, sym, pc, ord, kl0, kl1>>
 AllNames == GroupNames
-BoxNames == {nm \in GroupNames : BoxPreserving(GroupOf(nm))}
+GT == TLCEval([nm \in Names |-> GroupTable[nm]])       \* the groups of this model, generated once
+BoxNames == {nm \in Names : BoxPreserving(GT[nm])}
 
 Geo(nn, pp, dd) == [n |-> nn, nd |-> EffNdiv(<<dd, dd, dd>>, pp), L |-> 1]
 (* the periodic directions carry the grid, and the group maps the grid and the refined lattice to themselves *)
 GeoOK(nn, pp, dd, nm) == /\ \A i \in 1..3 : (~pp[i]) => nn[i] = 1
-                         /\ Compatible(nn, GroupOf(nm)) /\ Compatible(FineU(Geo(nn, pp, dd)), GroupOf(nm))
+                         /\ Compatible(nn, GT[nm]) /\ Compatible(FineU(Geo(nn, pp, dd)), GT[nm])
 Orders(m) == {<<i>> : i \in 1..m} \cup (IF m <= PairMaxPts THEN {<<i, j>> : i, j \in 1..m} \ {<<i, i>> : i \in 1..m} ELSE {})
 Dec3(code) == << code \div 100, (code \div 10) % 10, code % 10 >>
 Mask(code) == << code \div 100 = 1, (code \div 10) % 10 = 1, code % 10 = 1 >>
@@ -32,7 +33,7 @@ Mask(code) == << code \div 100 = 1, (code \div 10) % 10 = 1, code % 10 = 1 >>
 Init == /\ grp \in Names /\ n \in {Dec3(c) : c \in Sizes} /\ per \in {Mask(c) : c \in PerSet} /\ ndiv \in NdivSet /\ sym \in SymSet
         /\ pc = "in" /\ ord = <<>> /\ kl0 = <<>> /\ kl1 = <<>>
 gm   == Geo(n, per, ndiv)
-Gm   == GroupOf(grp)
+Gm   == GT[grp]
 GEff == IF sym THEN Gm ELSE {Id3}
 GetKList == /\ pc = "in" /\ GeoOK(n, per, ndiv, grp) = TRUE     \* (= TRUE: evaluated as a value, not unrolled by TLC)
             /\ kl0' = InitFine(gm, Gm, sym) /\ pc' = "klist"
